@@ -85,7 +85,7 @@ def parseKind : List String → Option PassKind
   | _ => none
 
 def clsLine (t : CType) (isRet : Bool) (fixed : Bool := false) : String :=
-  let k := if fixed then classifyFixedV t.view isRet else classify t isRet
+  let k := if fixed then classifyV t.view isRet else classifyLegacy t isRet
   let o := match k with
     | .coerce2 a b => if k.wellFormed then toString (off2 a b) else "-"
     | _ => "-"
@@ -151,16 +151,16 @@ def handle (line : String) : String :=
     | _, _ => "bad-op"
   | "sig" :: ws =>
     match parseSig ws with
-    | some s => sigLine classifyV s.ret s.params
+    | some s => sigLine classifyLegacyV s.ret s.params
     | none => "bad-op"
   | "sigfix" :: ws =>
     match parseSig ws with
-    | some s => sigLine classifyFixedV s.ret s.params
+    | some s => sigLine classifyV s.ret s.params
     | none => "bad-op"
   | "placefix" :: ws =>
     match parseSig ws with
     | some s =>
-      let i := implPlaceC classifyFixedV s
+      let i := implPlaceC classifyV s
       let p := place s
       s!"impl={placementName i} spec={placementName p} eq={b01 (decide (i = p))} fits={b01 (fitsInRegs s)} nosplit={b01 (noSplit s)} natural={b01 (decide ((∀ t ∈ s.ret, t.view.natural) ∧ ∀ t ∈ s.params, t.view.natural))}"
     | none => "bad-op"
